@@ -26,6 +26,7 @@ import (
 	"strconv"
 	"strings"
 
+	"github.com/tonkeeper/tongo/abi"
 	"github.com/tonkeeper/tongo/boc"
 	"github.com/tonkeeper/tongo/tlb"
 	"verifharness/h"
@@ -348,6 +349,10 @@ func goTLBFlags(a []string) string {
 	fr := &flagRun{t: t, name: a[0], budget: budget, rng: rand.New(rand.NewSource(int64(hs.Sum64())))}
 	synth := budget / 3
 	variants := synthesise(t, seed, &synth, 40)
+	// variants of the first variants: a second flag flipped (e.g. $00 → $10 → $110)
+	for i := 0; i < len(variants) && i < 6 && synth > 0; i++ {
+		variants = append(variants, synthesise(t, variants[i], &synth, 4)...)
+	}
 	all := append([][]h.Row{seed}, variants...)
 	if covSeedsOnly {
 		for _, s := range all {
@@ -366,47 +371,58 @@ func goTLBFlags(a []string) string {
 	return "ok " + strconv.Itoa(len(variants))
 }
 
+// go.tlb.flagsreal <type> <budget>: the same on the (up to two) smallest subtrees of the repository's real blocks that
+// decode completely into the type
+func goTLBFlagsReal(a []string) string {
+	t, ok := tlbByName[a[0]]
+	if !ok {
+		return "bad-op"
+	}
+	cells := realCells()
+	var cands [][]h.Row
+	for _, c := range cells {
+		if len(cands) >= 6 {
+			break
+		}
+		if c.BitSize() == 0 && c.RefsSize() == 0 {
+			continue
+		}
+		if !tryDecode(t, c) {
+			continue
+		}
+		c.ResetCounters()
+		limit := 250
+		if rows := cellToRows(c, &limit); rows != nil {
+			cands = append(cands, rows)
+		}
+	}
+	for _, c := range cells {
+		c.ResetCounters()
+	}
+	sort.SliceStable(cands, func(i, j int) bool { return len(cands[i]) < len(cands[j]) })
+	n := 0
+	for i := 0; i < len(cands) && i < 2; i++ {
+		if r := goTLBFlags([]string{a[0], a[1], h.TableString(cands[i])}); !strings.HasPrefix(r, "ok") {
+			return r
+		}
+		n++
+	}
+	return "ok " + strconv.Itoa(n)
+}
+
 // ---------------------------------------------------------------------------------------- generation
 
 func (gc *genCtx) genFlags() {
 	g := gc.g
 	hws := handWrittenDecoders()
 	g.Counters["hw_unmarshalers"] = len(hws)
-	cells := realCells()
-	defer func() {
-		for _, c := range cells {
-			c.ResetCounters()
-		}
-	}()
 	budget := g.Scale(6000, 60000)
 	vg := &valGen{rng: g.Rng}
 	seedsFor := func(name string, t reflect.Type) [][]h.Row {
+		// encodings of random values; subtrees of the real blocks are looked for by the EXECUTOR (go.tlb.flagsreal):
+		// the generator never runs a decoder on untrusted-size data (a decoder that over-allocates must fail a line,
+		// not the generation)
 		var out [][]h.Row
-		// from a real block: the smallest subtrees that decode completely
-		type cand struct {
-			rows []h.Row
-		}
-		var cs []cand
-		for _, c := range cells {
-			if len(cs) >= 6 {
-				break
-			}
-			if c.BitSize() == 0 && c.RefsSize() == 0 {
-				continue
-			}
-			if !tryDecode(t, c) {
-				continue
-			}
-			c.ResetCounters()
-			limit := 250
-			if rows := cellToRows(c, &limit); rows != nil {
-				cs = append(cs, cand{rows})
-			}
-		}
-		sort.SliceStable(cs, func(i, j int) bool { return len(cs[i].rows) < len(cs[j].rows) })
-		for i := 0; i < len(cs) && i < 2; i++ {
-			out = append(out, cs[i].rows)
-		}
 		for k := 0; k < 2; k++ {
 			if rows := vg.validSeed(t, 6); rows != nil && len(rows) <= 250 {
 				out = append(out, rows)
@@ -435,6 +451,7 @@ func (gc *genCtx) genFlags() {
 				gc.pendingFlags = append(gc.pendingFlags, []string{r.Name, strconv.Itoa(budget), h.TableString(s)})
 				n++
 			}
+			gc.pendingFlags = append(gc.pendingFlags, []string{"real", r.Name, strconv.Itoa(budget)})
 		}
 		if n == 0 {
 			g.Count("hw_decoder_without_seed:" + label)
@@ -455,11 +472,13 @@ func (gc *genCtx) genFlags() {
 		g.Counters["hw_decoder_seeds:"+lbl]++
 	}
 	// BlockInfo is reached with every flag combination crafted directly as well (see blockInfoSeeds)
-	for _, s := range blockInfoSeeds(cells) {
+	for _, s := range blockInfoSeeds(realCells()) {
 		gc.pendingFlags = append(gc.pendingFlags, []string{"tlb.BlockInfo", strconv.Itoa(budget), h.TableString(s)})
 		g.Count("blockinfo_crafted_flag_combinations")
 	}
 }
+
+func vg0(g *h.G) *valGen { return &valGen{rng: g.Rng} }
 
 type craftedSeed struct {
 	Name string
@@ -476,8 +495,258 @@ func (gc *genCtx) craftedSeeds() []craftedSeed {
 		if rows == nil || !ok {
 			return
 		}
-		if ok, _ := decodeSig(t, rows); ok {
+		if ok, _ := decodeSig(t, rows); ok || decodeOne(t, 2, rows) == "ok" {
 			out = append(out, craftedSeed{name, rows})
+		} else {
+			g.Count("crafted_seed_rejected:" + name)
+		}
+	}
+	addRows := func(name string, rows []h.Row) {
+		t, ok := tlbByName[name]
+		if !ok || rows == nil {
+			return
+		}
+		if ok, _ := decodeSig(t, rows); ok || decodeOne(t, 2, rows) == "ok" {
+			out = append(out, craftedSeed{name, rows})
+		} else {
+			g.Count("crafted_seed_rejected:" + name)
+		}
+	}
+	cellOf := func(f func(c *boc.Cell)) *boc.Cell {
+		c := boc.NewCell()
+		f(c)
+		return c
+	}
+	addrStd := func(c *boc.Cell) { // addr_std$10 anycast:(Maybe Anycast) workchain_id:int8 address:bits256
+		_ = c.WriteUint(2, 2)
+		_ = c.WriteBit(false)
+		_ = c.WriteUint(0, 8)
+		_ = c.WriteBytes(g.Bytes(32))
+	}
+	// DNSRecord: every constructor
+	add("tlb.DNSRecord", cellOf(func(c *boc.Cell) {
+		_ = c.WriteUint(0x1eda, 16)
+		_ = c.WriteUint(1, 8)
+		_ = c.WriteUint(3, 8)
+		_ = c.WriteBytes([]byte("abc"))
+	}))
+	add("tlb.DNSRecord", cellOf(func(c *boc.Cell) { _ = c.WriteUint(0xba93, 16); addrStd(c) }))
+	for _, fl := range []int{0, 1, 2} {
+		add("tlb.DNSRecord", cellOf(func(c *boc.Cell) {
+			_ = c.WriteUint(0xad01, 16)
+			_ = c.WriteBytes(g.Bytes(32))
+			_ = c.WriteUint(uint64(fl), 8)
+			if fl > 0 {
+				_ = c.WriteBit(true)
+				_ = c.WriteUint(0x4854, 16)
+				_ = c.WriteBit(fl == 2)
+				if fl == 2 {
+					_ = c.WriteUint(0x1234, 16)
+					_ = c.WriteBit(false)
+				}
+			}
+		}))
+		add("tlb.DNSRecord", cellOf(func(c *boc.Cell) {
+			_ = c.WriteUint(0x9fd3, 16)
+			addrStd(c)
+			_ = c.WriteUint(uint64(fl), 8)
+			if fl > 0 {
+				_ = c.WriteBit(true)
+				_ = c.WriteUint([]uint64{0x5371, 0x71f4, 0x2177}[fl], 16)
+				_ = c.WriteBit(false)
+			}
+		}))
+	}
+	add("tlb.DNSRecord", cellOf(func(c *boc.Cell) { _ = c.WriteUint(0x7473, 16); _ = c.WriteBytes(g.Bytes(32)) }))
+	add("tlb.DNSRecord", cellOf(func(c *boc.Cell) { _ = c.WriteUint(0xbeef, 16); _ = c.WriteUint(7, 8) }))
+	// CryptoSignature: ed25519_signature#5 / chained_signature#f signed_cert:^SignedCertificate temp_key_signature
+	simpleSig := func(c *boc.Cell) { _ = c.WriteUint(5, 4); _ = c.WriteBytes(g.Bytes(64)) }
+	add("tlb.CryptoSignature", cellOf(simpleSig))
+	add("tlb.CryptoSignature", cellOf(func(c *boc.Cell) {
+		_ = c.WriteUint(0xf, 4)
+		_ = c.AddRef(cellOf(func(r *boc.Cell) {
+			_ = r.WriteUint(4, 4) // certificate#4 temp_key:SigPubKey valid_since valid_until
+			_ = r.WriteUint(0x8e81278a, 32)
+			_ = r.WriteBytes(g.Bytes(32))
+			_ = r.WriteUint(1, 32)
+			_ = r.WriteUint(2, 32)
+			simpleSig(r)
+		}))
+		simpleSig(c)
+	}))
+	// ComputeSkipReason: $00 $01 $10 $110
+	for _, v := range [][2]uint64{{0, 2}, {1, 2}, {2, 2}, {6, 3}} {
+		add("tlb.ComputeSkipReason", cellOf(func(c *boc.Cell) { _ = c.WriteUint(v[0], int(v[1])) }))
+	}
+	// NFTPayload: nothing left, fewer than 32 bits, the three known operations, an unknown operation
+	add("abi.NFTPayload", boc.NewCell())
+	add("abi.NFTPayload", cellOf(func(c *boc.Cell) { _ = c.WriteUint(5, 16) }))
+	add("abi.NFTPayload", cellOf(func(c *boc.Cell) { _ = c.WriteUint(0, 32); _ = c.WriteBytes([]byte("hello")) }))
+	add("abi.NFTPayload", cellOf(func(c *boc.Cell) { _ = c.WriteUint(0x2167da4b, 32); _ = c.WriteBytes(g.Bytes(8)) }))
+	add("abi.NFTPayload", cellOf(func(c *boc.Cell) { _ = c.WriteUint(0xdeadbeef, 32); _ = c.WriteUint(1, 8) }))
+	add("abi.JettonPayload", boc.NewCell())
+	add("abi.JettonPayload", cellOf(func(c *boc.Cell) { _ = c.WriteUint(5, 16) }))
+	add("abi.JettonPayload", cellOf(func(c *boc.Cell) { _ = c.WriteUint(0, 32); _ = c.WriteBytes([]byte("hello")) }))
+	add("abi.JettonPayload", cellOf(func(c *boc.Cell) { _ = c.WriteUint(0xdeadbeef, 32); _ = c.WriteUint(1, 8) }))
+	// W5Actions (abi and wallet): out_list of n actions, action_send_msg#0ec3c86d mode:(## 8) out_msg:^…
+	for n := 0; n <= 3; n++ {
+		list := boc.NewCell()
+		for i := 0; i < n; i++ {
+			next := boc.NewCell()
+			_ = next.AddRef(list)
+			_ = next.WriteUint(0x0ec3c86d, 32)
+			_ = next.WriteUint(uint64(i), 8)
+			_ = next.AddRef(vg0(g).smallCell(0))
+			list = next
+		}
+		add("wallet.W5Actions", list)
+	}
+	// the abi mirrors decode the message itself (MessageRelaxed): W5Actions, WalletV1ToV4Payload
+	{
+		msgCell := func() *boc.Cell {
+			var m abi.MessageRelaxed
+			m.SumType = "MessageInternal"
+			m.MessageInternal.Bounce = g.Rng.Intn(2) == 0
+			m.MessageInternal.Src.SumType = "AddrNone"
+			m.MessageInternal.Dest.SumType = "AddrNone"
+			m.MessageInternal.CreatedLt = g.U64()
+			mc := boc.NewCell()
+			_ = safeMarshalTLB(mc, m)
+			return mc
+		}
+		for n := 0; n <= 3; n++ {
+			list := boc.NewCell()
+			v14 := boc.NewCell()
+			for i := 0; i < n; i++ {
+				next := boc.NewCell()
+				_ = next.AddRef(list)
+				_ = next.WriteUint(0x0ec3c86d, 32)
+				_ = next.WriteUint(uint64(i), 8)
+				_ = next.AddRef(msgCell())
+				list = next
+				_ = v14.WriteUint(uint64(i), 8) // mode:uint8 message:^MessageRelaxed, repeated
+				_ = v14.AddRef(msgCell())
+			}
+			add("abi.W5Actions", list)
+			add("abi.WalletV1ToV4Payload", v14)
+		}
+	}
+	// wallet.PayloadV1toV4 / PayloadHighload: n references with their mode bytes
+	for n := 0; n <= 4; n++ {
+		c := boc.NewCell()
+		for i := 0; i < n; i++ {
+			_ = c.WriteUint(uint64(3+i), 8)
+			_ = c.AddRef(vg0(g).smallCell(0))
+		}
+		add("wallet.PayloadV1toV4", c)
+	}
+	// W5ExtendedActions (abi and wallet): add_extension#02 addr / remove_extension#03 addr / set_signature_allowed#04 bool,
+	// chained through the first reference
+	for n := 1; n <= 3; n++ {
+		var next *boc.Cell
+		for i := 0; i < n; i++ {
+			c := boc.NewCell()
+			switch (i + n) % 3 {
+			case 0:
+				_ = c.WriteUint(4, 8)
+				_ = c.WriteBit(i%2 == 0)
+			case 1:
+				_ = c.WriteUint(2, 8)
+				addrStd(c)
+			default:
+				_ = c.WriteUint(3, 8)
+				addrStd(c)
+			}
+			if next != nil {
+				_ = c.AddRef(next)
+			}
+			next = c
+		}
+		add("abi.W5ExtendedActions", next)
+		add("wallet.W5ExtendedActions", next)
+	}
+	// PayloadHighload: the same layout as PayloadV1toV4 behind a dictionary? (decoded when it parses)
+	// VmStack of depth 0; split ShardState with pruned halves
+	add("tlb.VmStack", cellOf(func(c *boc.Cell) { _ = c.WriteUint(0, 24) }))
+	for _, which := range []int{1, 2, 3} {
+		rows := []h.Row{{BitLen: 32, Data: []byte{0x5f, 0x32, 0x7d, 0xa5}, Refs: []int{1, 2}}, prunedRow(g.Rng), prunedRow(g.Rng)}
+		if ut, ok := tlbByName["tlb.ShardStateUnsplit"]; ok && which != 3 {
+			for _, rc := range realCells() {
+				if rc.BitSize() > 100 && tryDecode(ut, rc) {
+					rc.ResetCounters()
+					limit := 90
+					if sub := cellToRows(rc, &limit); sub != nil {
+						base := len(rows)
+						for _, r := range sub {
+							r2 := r
+							r2.Refs = nil
+							for _, x := range r.Refs {
+								r2.Refs = append(r2.Refs, x+base)
+							}
+							rows = append(rows, r2)
+						}
+						rows[0].Refs[which-1] = base
+					}
+					break
+				}
+			}
+		}
+		addRows("tlb.ShardState", rows)
+	}
+	// JettonTransferMsgBody with a custom payload reference
+	add("abi.JettonTransferMsgBody", cellOf(func(c *boc.Cell) {
+		_ = c.WriteUint(g.U64(), 64)
+		_ = c.WriteUint(1, 4) // VarUInteger16: one byte
+		_ = c.WriteUint(9, 8)
+		addrStd(c)
+		_ = c.WriteUint(0, 2) // addr_none
+		_ = c.WriteBit(true)  // custom_payload present
+		_ = c.AddRef(vg0(g).smallCell(0))
+		_ = c.WriteUint(0, 4) // forward_ton_amount = 0
+		_ = c.WriteBit(false) // forward_payload inline, empty
+	}))
+	// SnakeData: a library cell in the chain (resolved by the decoder's library resolver)
+	addRows("tlb.SnakeData", []h.Row{{BitLen: 16, Data: []byte{0xab, 0xcd}, Refs: []int{1}}, libraryRow(g.Rng)})
+	// ValueFlow v2 (burned) and McBlockExtra of a key block: a real encoding rewritten
+	if vt, ok := tlbByName["tlb.ValueFlow"]; ok {
+		for _, rc := range realCells() {
+			if rc.BitSize() > 32 && tryDecode(vt, rc) {
+				rc.ResetCounters()
+				limit := 60
+				rows := cellToRows(rc, &limit)
+				if rows == nil || rows[0].BitLen+5 > 1023 {
+					continue
+				}
+				rows = cloneRows(rows)
+				copy(rows[0].Data, []byte{0x3e, 0xbf, 0x98, 0xb7})
+				setBitLen(&rows[0], rows[0].BitLen+5) // burned: Grams 0 + empty extra currencies
+				addRows("tlb.ValueFlow", rows)
+				break
+			}
+		}
+	}
+	if mt, ok := tlbByName["tlb.McBlockExtra"]; ok {
+		for _, rc := range realCells() {
+			if rc.BitSize() >= 17 && tryDecode(mt, rc) {
+				rc.ResetCounters()
+				limit := 250
+				rows := cellToRows(rc, &limit)
+				if rows == nil || rows[0].BitLen+256 > 1023 || len(rows[0].Refs) >= 4 {
+					continue
+				}
+				rows = cloneRows(rows)
+				rows[0].Data[2] |= 0x80 // key_block
+				setBitLen(&rows[0], rows[0].BitLen+256)
+				// config:^(Hashmap 32 ^Cell) with one entry: hml_long$10 n=32 key, value ^Cell
+				w := &bitw{}
+				w.u(2, 2)
+				w.u(32, 6)
+				w.u(7, 32)
+				rows = append(rows, w.row([]int{len(rows) + 1}), zeroRow(8))
+				rows[0].Refs = append(rows[0].Refs, len(rows)-2)
+				addRows("tlb.McBlockExtra", rows)
+				break
+			}
 		}
 	}
 	// DNSText: text$_ chunks:(## 8) rest:(TextChunks chunks); text_chunk$_ len:(## 8) data next:^…
@@ -714,6 +983,7 @@ func goTLBCovSeeds(a []string) string {
 			n++
 		}
 		_ = decodeOne(s.t, 1, s.tab) // the decoder with a hasher
+		_ = decodeOne(s.t, 2, s.tab) // … and with a library resolver
 	}
 	if err := coverageWrite(os.Getenv("C08_COV_OUT")); err != nil {
 		return "FAIL " + err.Error()
@@ -729,6 +999,12 @@ func (gc *genCtx) emitPendingFlag() {
 	}
 	a := gc.pendingFlags[0]
 	gc.pendingFlags = gc.pendingFlags[1:]
+	if a[0] == "real" {
+		gc.g.Emit("go.tlb.flagsreal", a[1:]...)
+		b, _ := strconv.Atoi(a[2])
+		gc.g.N += b - 1
+		return
+	}
 	gc.g.Emit("go.tlb.flags", a...)
 	b, _ := strconv.Atoi(a[1])
 	gc.g.N += b - 1
